@@ -17,7 +17,11 @@ def main(path):
         cfg = rp.get('config') or {}
         if isinstance(cfg, tuple):
             cfg = {}
-        w = cls(cfg) if cfg else cls()
+        args = rp.get('args')
+        if args:
+            w = cls(*args)
+        else:
+            w = cls(cfg) if cfg else cls()
         try:
             if rp['history'] and rp['history'][0][0] == 'populate':
                 from .props.sweep import build
